@@ -1,8 +1,8 @@
 CONSTANTS
   MaxAttrs = 2
   MaxKids = 2
-  AttrKinds = {"call", "member", "class", "style", "onClick", "spread", "spreadid", "objlit", "on", "dir", "dirarr", "vhtml", "vmodel", "vmodelc", "trivial", "static"}
-  KidKinds = {"call", "member", "trivial", "text", "elem", "comp", "direlem", "spread", "arr"}
+  AttrKinds = {"call", "member", "class", "style", "onClick", "spread", "spreadid", "objlit", "on", "dir", "vmodel", "vmodelc"}
+  KidKinds = {"call", "member", "trivial", "text", "elem", "comp", "direlem"}
   OptCombos = {"TTT", "FFF", "TFF"}
   AttrKinds3 = {"call", "member", "class", "style", "onClick", "spread", "on", "objlit", "vmodel"}
   KidKinds3 = {"call", "comp", "elem"}
